@@ -7,7 +7,7 @@ use crate::model::{MV, json};
 use proptest::prelude::*;
 use serde::{Deserialize, Serialize};
 
-pub const RULE: &str = "programs from a recursion grammar: shape in {self, mutual (2 and 3 functions), via / where / map / filter / reduce callback, do-block body, anonymous cycle through a record method / a list element / self-application} x per-call expression nesting 1..32 of kind {arithmetic chain, list nesting, record nesting, conditionals, call-argument nesting, mixture} x {unbounded, bounded with depth 100..900 for plain shapes}; each is run in the release `blots` binary built from the working tree with RLIMIT_STACK = 8 MiB (the default main-thread stack), RLIMIT_AS 6 GiB and a 60 s timeout. Unbounded programs must exit with status 1 and report `maximum call depth`; a signal or exit 101 is a violation. Bounded programs must exit 0 with the arithmetically expected value. Non-trivial = per-call nesting >= 2 or a callback / mutual / anonymous shape; distinct by program text.";
+pub const RULE: &str = "programs from a recursion grammar: shape in {self, mutual (2 and 3 functions), via / where / map / filter / reduce callback, the callee handed straight to into / where (no call expression in the cycle), do-block body, anonymous cycle through a record method / a list element / self-application} x per-call expression nesting 1..32 of kind {arithmetic chain, list nesting, record nesting, conditionals, call-argument nesting, mixture} x {unbounded, bounded with depth 100..900 for plain shapes}; enumerated: every shape x nesting {1, 2, 4, 8} x 2 kinds (runaway and 200-300 deep) and nesting {16, 24, 32} x all kinds (runaway; 900 deep for plain shapes); random beyond that. Each is run in the release `blots` binary built from the working tree with RLIMIT_STACK = 8 MiB (the default main-thread stack), RLIMIT_AS 6 GiB and a 60 s timeout. Unbounded programs must exit with status 1 and report `maximum call depth`; a signal or exit 101 is a violation. Bounded programs must exit 0 with the arithmetically expected value. Non-trivial = per-call nesting >= 2 or a callback / mutual / anonymous shape; distinct by program text.";
 pub const ASSUMPTIONS: &[&str] = &[
     "only the real binary decides; a timeout or memory-limit hit is counted as inconclusive, never as a violation",
     "error-swallowing sort_by callbacks are excluded (they turn runaway recursion into exponential work and are not in the statement's list)",
@@ -58,6 +58,10 @@ pub fn program(c: &Case) -> (String, Option<f64>) {
             5 => format!("map([{}], {})[0]", if c.bounded.is_some() { "n - 1" } else { "n + 1" }, callee),
             6 => format!("len(filter([{}], x => {}(x) .== 0 or true))", if c.bounded.is_some() { "n - 1" } else { "n + 1" }, callee),
             7 => format!("reduce([{}], (acc, x) => {}(x), 0)", if c.bounded.is_some() { "n - 1" } else { "n + 1" }, callee),
+            // the callee handed straight to the operator: no call expression anywhere in the cycle
+            12 => format!("(({}) into {})", if c.bounded.is_some() { "n - 1" } else { "n + 1" }, callee),
+            13 if c.bounded.is_none() => format!("len([n + 1] where {})", callee),
+            13 => format!("len([n - 1] where (x => {}(x) .== 0 or true))", callee),
             _ => step(callee),
         }
     };
@@ -115,7 +119,7 @@ pub fn program(c: &Case) -> (String, Option<f64>) {
     let expected = c.bounded.map(|d| {
         // where / filter shapes return len(..) = 1 per level instead of the recursive value
         match c.shape {
-            4 | 6 => {
+            4 | 6 | 13 => {
                 if d == 0 {
                     0.0
                 } else {
@@ -136,7 +140,7 @@ impl Check for Recursion {
     }
     fn run(&self, c: &Case, ctx: &mut Ctx) -> Outcome {
         let (src, expected) = program(c);
-        let shape = ["self", "mutual2", "mutual3", "via", "where", "map", "filter", "reduce", "do-block", "record-method", "list-element", "self-application"][c.shape as usize % 12];
+        let shape = ["self", "mutual2", "mutual3", "via", "where", "map", "filter", "reduce", "do-block", "record-method", "list-element", "self-application", "into", "where-direct"][c.shape as usize % 14];
         let bucket = match c.nesting {
             0..=1 => "nesting1",
             2..=4 => "nesting2-4",
@@ -192,10 +196,10 @@ impl Check for Recursion {
 }
 
 pub fn strategy() -> BoxedStrategy<Case> {
-    (0u8..12, prop_oneof![3 => 1u8..5, 2 => 5u8..13, 1 => 13u8..33], 0u8..6, prop::option::weighted(0.35, 100u16..900))
+    (0u8..14, prop_oneof![3 => 1u8..5, 2 => 5u8..13, 1 => 13u8..33], 0u8..6, prop::option::weighted(0.35, 100u16..900))
         .prop_map(|(shape, nesting, kind, bounded)| {
             // bounded variants: plain shapes only (callback shapes consume several call levels per step)
-            let bounded = if matches!(shape, 0 | 1 | 2 | 8 | 9 | 10 | 11) { bounded } else { bounded.map(|d| d.min(250)) };
+            let bounded = if matches!(shape, 0 | 1 | 2 | 8 | 9 | 10 | 11 | 12) { bounded } else { bounded.map(|d| d.min(250)) };
             Case { shape, nesting, kind, bounded }
         })
         .boxed()
@@ -204,11 +208,21 @@ pub fn strategy() -> BoxedStrategy<Case> {
 pub fn run(ctx: &mut Ctx) {
     // every shape x a few nestings, unbounded and bounded(300)
     let mut fixed = Vec::new();
-    for shape in 0..12u8 {
+    for shape in 0..14u8 {
         for nesting in [1u8, 2, 4, 8] {
             for kind in [0u8, 4] {
                 fixed.push(Case { shape, nesting, kind, bounded: None });
-                fixed.push(Case { shape, nesting, kind, bounded: Some(if matches!(shape, 3..=7) { 200 } else { 300 }) });
+                fixed.push(Case { shape, nesting, kind, bounded: Some(if matches!(shape, 3..=7 | 13) { 200 } else { 300 }) });
+            }
+        }
+        // deep per-call nesting of every kind, runaway and just below the limit
+        for nesting in [16u8, 24, 32] {
+            for kind in 0u8..6 {
+                fixed.push(Case { shape, nesting, kind, bounded: None });
+            }
+            if matches!(shape, 0 | 1 | 2 | 8 | 9 | 10 | 11 | 12) {
+                fixed.push(Case { shape, nesting, kind: 0, bounded: Some(900) });
+                fixed.push(Case { shape, nesting, kind: 5, bounded: Some(900) });
             }
         }
     }
